@@ -1,7 +1,10 @@
 // Copyright 2014 The Prometheus Authors
 // Copyright 2019 TiKV Project Authors. Licensed under Apache-2.0.
 
+#[cfg(not(prometheus_verif_map))]
 use std::collections::{BTreeSet, HashMap};
+#[cfg(prometheus_verif_map)]
+use {crate::verif_map::HashMap, std::collections::BTreeSet};
 use std::hash::Hasher;
 
 use fnv::FnvHasher;
